@@ -370,6 +370,53 @@ func Run(t *testing.T, property, check string, prop Prop) {
 	})
 }
 
+// RunEnum executes a property on an explicitly enumerated list of cases (each case is the list
+// of draws handed to the property; draws the case does not supply take the lower bound of their
+// range). Used where the input space is a finite corpus that is to be covered exhaustively rather
+// than sampled. Failures are saved in the same replay format as Run's.
+func RunEnum(t *testing.T, property, check string, cases [][]int64, prop Prop) {
+	st := NewStats()
+	start := time.Now()
+	failed := false
+	defer func() { st.write(check, start, failed || t.Failed()) }()
+	run := func(draws []int64) (*replayChooser, error) {
+		ch := &replayChooser{in: draws}
+		return ch, Safe(func() error { return prop(ch, st) })
+	}
+	if rp := os.Getenv("VERIF_REPLAY"); rp != "" {
+		c, err := LoadCase(rp)
+		if err != nil {
+			t.Fatalf("cannot load replay file: %v", err)
+		}
+		if c.Check != check {
+			t.Skipf("replay file is for check %s", c.Check)
+		}
+		ch, err := run(c.Draws)
+		if err != nil {
+			if _, ok := err.(*Inconclusive); ok {
+				t.Skipf("%v", err)
+			}
+			failed = true
+			saveCase(property, check, &ch.recorder, err)
+			t.Fatalf("REPLAY-VIOLATION property=%s check=%s: %v\nnotes:\n%s", property, check, err, strings.Join(tail(ch.notes, 60), "\n"))
+		}
+		t.Logf("replay passed (%d draws)", len(ch.draws))
+		return
+	}
+	for _, draws := range cases {
+		ch, err := run(draws)
+		if err == nil {
+			continue
+		}
+		if _, ok := err.(*Inconclusive); ok {
+			t.Fatalf("inconclusive: %v", err)
+		}
+		failed = true
+		p := saveCase(property, check, &ch.recorder, err)
+		t.Fatalf("property %s (%s) violated: %v\ncase saved to %s", property, check, firstLines(err.Error(), 30), p)
+	}
+}
+
 func tail(s []string, n int) []string {
 	if len(s) > n {
 		return s[len(s)-n:]
